@@ -317,7 +317,9 @@ def rule_reselection_guard(eng, rep, rule="C17-4b.incumbent-is-re-selected-whene
             gs = guards_of(cfg, nn)
             bad = []
             for (_b, a) in gs:
-                t = ekey(a.lhs).replace("numpy", "np")
+                from .common import expand_locals
+                lhs_x = expand_locals(cfg, cfg.ast_of(_b), a.lhs, depth=1) if isinstance(a.lhs, ast.Name) else a.lhs       # `all_nan = np.all(np.isnan(..)); if not all_nan:`
+                t = ekey(lhs_x).replace("numpy", "np")
                 if a.op == "false" and t.startswith("np.all(np.isnan("):
                     continue
                 bad.append(a)
@@ -341,7 +343,9 @@ def rule_reselection_guard(eng, rep, rule="C17-4b.incumbent-is-re-selected-whene
     def edge_fn(a, b, e, s):
         if s == "pending" and cfg.kind(a) == "cond" and e.get("label") in (True, False):
             at = atom_of(cfg.ast_of(a), e["label"])
-            if at.op == "truth" and ekey(at.lhs).replace("numpy", "np").startswith("np.all(np.isnan("):
+            from .common import expand_locals
+            lhs_x = expand_locals(cfg, cfg.ast_of(a), at.lhs, depth=1) if isinstance(at.lhs, ast.Name) else at.lhs
+            if at.op == "truth" and ekey(lhs_x).replace("numpy", "np").startswith("np.all(np.isnan("):
                 return "done"
         return s
 
